@@ -14,6 +14,29 @@ def KPc.holds : KPc → Bool
   | .locked => true
   | _ => false
 
+@[simp] theorem PPc.holds_idle : (PPc.idle : PPc α).holds = false := rfl
+@[simp] theorem PPc.holds_bcast : (PPc.bcast : PPc α).holds = false := rfl
+@[simp] theorem PPc.holds_locked (x : α) : (PPc.locked x).holds = true := rfl
+@[simp] theorem PPc.holds_ite (c : Prop) [Decidable c] : (if c then (PPc.bcast : PPc α) else PPc.idle).holds = false := by
+  split <;> rfl
+@[simp] theorem CPc.holds_idle : CPc.idle.holds = false := rfl
+@[simp] theorem CPc.holds_locked : CPc.locked.holds = true := rfl
+@[simp] theorem CPc.holds_waiting : CPc.waiting.holds = false := rfl
+@[simp] theorem CPc.holds_woken : CPc.woken.holds = false := rfl
+@[simp] theorem CPc.holds_relocked : CPc.relocked.holds = true := rfl
+@[simp] theorem KPc.holds_idle : KPc.idle.holds = false := rfl
+@[simp] theorem KPc.holds_locked : KPc.locked.holds = true := rfl
+@[simp] theorem KPc.holds_bcast : KPc.bcast.holds = false := rfl
+@[simp] theorem wake_holds (c : CPc) : (wake c).holds = c.holds := by cases c <;> rfl
+@[simp] theorem consAfter_holds (p : PullRes α) : (consAfter p).holds = false := by cases p <;> rfl
+
+theorem setProd_holds (f : Nat → PPc α) (i j : Nat) (pc : PPc α) :
+    (setProd f i pc j).holds = if j = i then pc.holds else (f j).holds := by
+  simp only [setProd]; split <;> rfl
+
+@[simp] theorem tid_prod_beq (i j : Nat) : (Tid.prod i == Tid.prod j) = decide (i = j) := by
+  by_cases h : i = j <;> simp [h]
+
 /-- the mutex owner is exactly the thread whose program counter is inside a critical section -/
 structure OwnerInv (s : State α) : Prop where
   prod : ∀ i, (s.prod i).holds = (s.owner == some (.prod i))
@@ -21,20 +44,59 @@ structure OwnerInv (s : State α) : Prop where
   closer : s.closer.holds = (s.owner == some .closer)
 
 theorem ownerInv_init (size : Nat) : OwnerInv (init (α := α) size) where
-  prod := fun i => by simp [init, PPc.holds]
-  cons := by simp [init, CPc.holds]
-  closer := by simp [init, KPc.holds]
+  prod := fun i => by simp [init]
+  cons := by simp [init]
+  closer := by simp [init]
 
-@[simp] theorem wake_holds (c : CPc) : (wake c).holds = c.holds := by cases c <;> rfl
 
-theorem setProd_same (f : Nat → PPc α) (i : Nat) (pc : PPc α) : setProd f i pc i = pc := by simp [setProd]
-theorem setProd_other (f : Nat → PPc α) (i j : Nat) (pc : PPc α) (h : j ≠ i) : setProd f i pc j = f j := by simp [setProd, h]
+/-- unfold one scheduling step: closes the disabled cases, leaves the enabled one with `s'` replaced
+by its definition -/
+macro "step_cases" hs:ident : tactic =>
+  `(tactic| (simp only [step?] at $hs:ident
+             split at $hs:ident <;> first
+               | contradiction
+               | (injection $hs:ident with $hs:ident; subst $hs:ident)))
 
 theorem ownerInv_step {s s' : State α} (a : Act α) (h : OwnerInv s) (hs : step? s a = some s') : OwnerInv s' := by
   obtain ⟨h1, h2, h3⟩ := h
-  cases a <;> simp only [step?] at hs <;> split at hs <;>
-    first
-    | contradiction
-    | (injection hs with hs; subst hs
-       refine ⟨fun j => ?_, ?_, ?_⟩ <;> (try by_cases hj : j = _) <;>
-         simp_all [PPc.holds, CPc.holds, KPc.holds, setProd])
+  cases a
+  case prodLock i x =>
+    step_cases hs
+    have := h1 i
+    refine ⟨fun j => ?_, ?_, ?_⟩ <;> grind [setProd_holds, PPc.holds, CPc.holds, KPc.holds]
+  case prodBody i =>
+    step_cases hs
+    have := h1 i
+    refine ⟨fun j => ?_, ?_, ?_⟩ <;> grind [setProd_holds, PPc.holds, CPc.holds, KPc.holds]
+  case prodBcast i =>
+    step_cases hs
+    have := h1 i
+    refine ⟨fun j => ?_, ?_, ?_⟩ <;> grind [setProd_holds, PPc.holds, CPc.holds, KPc.holds, wake_holds]
+  case consLock =>
+    step_cases hs
+    refine ⟨fun j => ?_, ?_, ?_⟩ <;> grind [PPc.holds, CPc.holds, KPc.holds]
+  case consBody =>
+    step_cases hs
+    refine ⟨fun j => ?_, ?_, ?_⟩ <;> grind [PPc.holds, CPc.holds, KPc.holds, consAfter_holds]
+  case consReacq =>
+    step_cases hs
+    refine ⟨fun j => ?_, ?_, ?_⟩ <;> grind [PPc.holds, CPc.holds, KPc.holds]
+  case consUnlock =>
+    step_cases hs
+    refine ⟨fun j => ?_, ?_, ?_⟩ <;> grind [PPc.holds, CPc.holds, KPc.holds]
+  case closerLock =>
+    step_cases hs
+    refine ⟨fun j => ?_, ?_, ?_⟩ <;> grind [PPc.holds, CPc.holds, KPc.holds]
+  case closerBody =>
+    step_cases hs
+    refine ⟨fun j => ?_, ?_, ?_⟩ <;> grind [PPc.holds, CPc.holds, KPc.holds]
+  case closerBcast =>
+    step_cases hs
+    refine ⟨fun j => ?_, ?_, ?_⟩ <;> grind [PPc.holds, CPc.holds, KPc.holds, wake_holds]
+
+theorem ownerInv_reachable {size : Nat} {s : State α} (h : Reachable size s) : OwnerInv s := by
+  induction h with
+  | init => exact ownerInv_init size
+  | step a _ hs ih => exact ownerInv_step a ih hs
+
+end Rtsp.RingConc
